@@ -155,6 +155,18 @@ Definition produce (conv : row -> result) (res : option (list row)) : list sev :
   | None => [SErr; SClose]
   end.
 
+(* The same goroutine when the caller's context is done at some point. The job is submitted to the pool with
+   context.WithoutCancel(ctx) (since the fix of finding S9: before it the pool dropped the job when ctx was
+   already done, nothing was sent, the channel was never closed and sqlite never returned the connection),
+   so it always runs: it delivers the first k rows (k = 0 when the statement is interrupted at once), then
+   e error elements (the per-row select on ctx.Done sends one, the failed statement another), and the
+   deferred close runs whatever happened. k and e are the schedule's choice. *)
+Definition produce_cancelled (conv : row -> result) (res : option (list row)) (k e : nat) : list sev :=
+  match res with
+  | Some rows => map (fun r => SItem (conv r)) (firstn k rows)
+  | None => []
+  end ++ repeat SErr e ++ [SClose].
+
 (* ------------------------------------------------------------------ cosmosdb Exists and the point read *)
 
 (* what ReadItem(key(id), id) answered: the item, an HTTP error status (an azcore.ResponseError), or an error
